@@ -21,6 +21,7 @@ def main():
     if not os.path.isdir(WT):
         sh('git -C /repo worktree add -q %s HEAD' % WT)
     sh('git -C %s checkout -q -- . && git -C %s clean -fdq' % (WT, WT))
+    sh('git -C %s checkout -q --detach $(git -C /repo rev-parse HEAD)' % WT)
     out = {'mutant': d, 'property': meta['property']}
     env_demo = 'PYTHONPATH=%s/src PYTHONWARNINGS=ignore' % WT
     if full:
